@@ -5,6 +5,7 @@ import sandboxexec_check as sc
 THEOREMS = [
     "Pedal.SandboxExec.c04_ladder_contains",
     "Pedal.SandboxExec.c04_import_transparent",
+    "Pedal.SandboxExec.c04_tracers_let_failures_through",
     "Pedal.SandboxExec.c04_contained",
     "Pedal.SandboxExec.c04_exception_available",
     "Pedal.SandboxExec.c04_exactly_one_runtime_feedback",
@@ -52,6 +53,16 @@ NOTES = [
     "odd exception OBJECTS: falsy / zero-length / equal-to-everything / unhashable instances are ordinary "
     "descriptors for the model (nothing in it tests an exception's truth or equality - that the code does not "
     "either is what the generator samples); an exception whose truth test RAISES is the hazard truthRaises, probed",
+    "the traced exec (`with self.trace.as_filename(...): exec(...)`) is a TRANSPARENT step of the model: what the code "
+    "raises is what the handlers of _execute see. That the tracer's context manager suppresses or replaces nothing is "
+    "PROBED (c04_tracers_let_failures_through: every tracer style x every exception class named in pedal/sandbox, the "
+    "traceback renderer and the library modules the tracer styles are built on, and all their bases, entered once and "
+    "re-entered) and SAMPLED (sandboxexec_special.py: those classes raised exactly / as a subclass under every style "
+    "and from every place); classes outside that table are only sampled by the builtin sweep with rotating style",
+    "the model has no notion of the THREAD the grader runs on: its answer for a history is the same whether run / call "
+    "/ evaluate are called from the main thread, a plain threading.Thread, a pool worker, a thread `threading` did not "
+    "start or a Timer; that the real code is equally indifferent is SAMPLED (histories carrying `on`), not proved. A "
+    "grader that itself runs inside pedal's own timeout() is a GATED input (fails on the unchanged tree, reported)",
     "the model has no notion of SIZE (inputs consumed, output printed, traceback depth, message / argument / source "
     "length) nor of the report's formatter: its answer depends on the termination descriptor only. That the real code "
     "is equally indifferent is SAMPLED by the size sweep of the correspondence / search (limits read from the tree "
